@@ -54,7 +54,7 @@ def obligations(tier, ctx):
     from symcheck import consts
     nsz = len(consts.size_cases(70000, extra=(4096, 8192, 65536, 131072)))
     for what in ((0, 3) if tier == "quick" else (0, 1, 2, 3, 4, 7)):
-        for pat in ((5,) if tier == "quick" else (0, 2, 4, 5)):
+        for pat in ((6, 7, 8) if tier == "quick" else (0, 2, 4, 5, 6, 7, 8)):
             obs.append(Ob(name=f"wire_long_{what}_p{pat}", params=[("k", "int"), ("i", "int")], pre=[f"0 <= k < {nsz}", ("i == 1" if tier == "quick" else "i in (0, 1, 3)")],
                           call=f"H.wire_long(0, {what}, k, {pat}, 2, i)", backend="P", timeout=900,
                           family="size: transports' serialisers for a message whose string members have c-1, c, c+1 characters (c: integer constants of the source and environment sizes)"))
